@@ -117,6 +117,24 @@ def _pool(fn, jobs, n=None):
         return list(ex.map(fn, jobs))
 
 
+def pool_optimised(modname, fnname, jobs):
+    """the same driver in a `python -O` child (assert statements removed from the library)"""
+    import pickle
+    import subprocess
+    import sys
+    if not jobs:
+        return []
+    env = dict(os.environ, CARDUTIL_REPO=core.REPO, PYTHONHASHSEED='0')
+    p = subprocess.run([sys.executable, '-O', '-B', '-m', 'harness.optchild', modname, fnname], input=pickle.dumps(jobs),
+                       capture_output=True, cwd=core.VERIF, env=env, timeout=3000)
+    if p.returncode != 0:
+        raise core.MachineryError('python -O child failed: ' + p.stderr.decode(errors='replace')[-800:])
+    res = pickle.loads(p.stdout)
+    if not res['optimised']:
+        raise core.MachineryError('child interpreter did not run in optimised mode')
+    return res['out']
+
+
 def validate(rep, wd, groups, owner, prefix, maxbatch=700):
     """groups: list of (cfgspec, codec, traces). Runs Trace_Iso per batch; reports owned clauses as violations."""
     batches = []
@@ -168,12 +186,13 @@ def validate(rep, wd, groups, owner, prefix, maxbatch=700):
 def roundtrip_trace(tid, m, bc, codec, hexb, desc, secret=''):
     if tid % 9 == 4:
         drv.hazard(drv.rng(tid, 'hazard', desc))          # unrelated activity in this process; must not matter
-    e1, b = isoc.do_dumps(m, codec, bc, hexb)
-    evs = [e1]
-    d = None
-    if b is not None:
-        e2, d = isoc.do_loads(b, codec, bc, hexb, rt=True, secret=secret)
-        evs.append(e2)
+    with drv.Env('rt', tid, desc, every=5):        # every fifth history with the library's debug logging on
+        e1, b = isoc.do_dumps(m, codec, bc, hexb)
+        evs = [e1]
+        d = None
+        if b is not None:
+            e2, d = isoc.do_loads(b, codec, bc, hexb, rt=True, secret=secret)
+            evs.append(e2)
     return {'tid': tid, 'hex': hexb, 'events': evs, '_desc': desc, '_m': repr(m)[:500],
             '_d': repr(d)[:300] if d is not None else None}
 
